@@ -70,7 +70,8 @@ def harness_tmp(ctx, args, timeout=1500):
 # --------------------------------------------------------------------------
 # WorkingCopy model (C23, C24, C25, C27): shared runner
 
-PATHS = [["gi"], ["d"], ["d", "gi"], ["d", "x"], ["d", "y"], ["f"]]
+PATHS = [["gi"], ["d"], ["d", "gi"], ["d", "x"], ["d", "x", "z"], ["d", "y"], ["f"]]
+NP = len(PATHS)
 
 # which property owns which verdict of Trace_WorkingCopy (spec/WorkingCopy.tla, VERDICTS)
 OWNER = {
@@ -93,7 +94,7 @@ def _pre(rec, i):
     if i > 0:
         return rec["obs"][i - 1]
     a = {"k": "absent", "c": 0, "x": False, "t": "", "m": []}
-    return {"disk": [a] * 6, "tree": [a] * 6, "fs": [{"k": "none", "x": False}] * 6, "sparse": [[]]}
+    return {"disk": [a] * NP, "tree": [a] * NP, "fs": [{"k": "none", "x": False}] * NP, "sparse": [[]]}
 
 
 def owners(rec, verdict, step):
@@ -122,17 +123,29 @@ def wc_signature(rec, verdict, step=None):
                     and pre["disk"][n]["k"] in ("file", "symlink") and post["tree"][n]["k"] != "absent":
                 return "SnapshotOK:stale-file-state-tracks-ignored-path"
         return verdict
+    if verdict == "Error:Snapshot":
+        # F7: a tracked path below something that is no longer a directory (ENOTDIR in
+        # visit_tracked_files, inside a directory ignored as a whole)
+        i = len(rec["obs"]) - 1 if step is None else step
+        pre, msg = _pre(rec, i), rec["obs"][i].get("msg", "")
+        for n, p in enumerate(PATHS):
+            if pre["fs"][n]["k"] != "none" and "Failed to stat file" in msg and any(
+                    pre["disk"][PATHS.index(p[:k])]["k"] in ("file", "special") for k in range(1, len(p))):
+                return "Error:Snapshot:tracked-path-below-non-directory"
+        return "Error:Snapshot:other"
     if not verdict.startswith("Panic:"):
         return verdict
     i = len(rec["obs"]) - 1 if step is None else step
     st, pre, msg = rec["steps"][i], _pre(rec, i), rec["obs"][i].get("msg", "")
     kind = lambda v: v["k"]
+    # some ancestor of p is a non-directory on disk
+    blocked_above = lambda p: any(kind(pre["disk"][PATHS.index(p[:n])]) in ("file", "symlink", "special")
+                                  for n in range(1, len(p)))
     if verdict == "Panic:SetSparse":
         sp = st["sp"]
         for n, p in enumerate(PATHS):
             if _match(pre["sparse"], p) and not _match(sp, p) and kind(pre["tree"][n]) != "absent":
-                par = kind(pre["disk"][PATHS.index(p[:-1])]) if len(p) > 1 else "dir"
-                if kind(pre["disk"][n]) == "dir" or par in ("file", "symlink"):
+                if kind(pre["disk"][n]) == "dir" or blocked_above(p):
                     if "left == right" in msg:
                         return "Panic:SetSparse:leaving-path-obstructed"
         return "Panic:SetSparse:other"
@@ -144,7 +157,7 @@ def wc_signature(rec, verdict, step=None):
             if skipped_before and pre["fs"][n]["k"] != "none" and kind(pre["disk"][n]) == "dir":
                 return "Panic:Snapshot:file-state-on-directory"
         for n, p in enumerate(PATHS):
-            if kind(pre["disk"][n]) in ("file", "symlink") and _match(pre["sparse"], p) \
+            if kind(pre["disk"][n]) == "file" and _match(pre["sparse"], p) \
                     and any(kind(pre["tree"][m]) == "conflict" for m in under(p)):
                 return "Panic:Snapshot:file-replaces-directory-with-conflict"
         for n, p in enumerate(PATHS):
@@ -156,9 +169,10 @@ def wc_signature(rec, verdict, step=None):
     if verdict == "Panic:CheckOut":
         new = st["tree"]
         for n, p in enumerate(PATHS):
-            if _match(pre["sparse"], p) and kind(new[n]) != "absent" and kind(pre["disk"][n]) in ("file", "symlink"):
+            if _match(pre["sparse"], p) and kind(new[n]) != "absent":
                 for m, q in enumerate(PATHS):
-                    if len(q) > len(p) and q[:len(p)] == p and _match(pre["sparse"], q) and kind(pre["tree"][m]) != "absent":
+                    if len(q) > len(p) and q[:len(p)] == p and _match(pre["sparse"], q) and kind(pre["tree"][m]) != "absent" \
+                            and (kind(pre["disk"][m]) == "dir" or blocked_above(q)):
                         if "sorted" in msg:
                             return "Panic:CheckOut:unsorted-changed-file-states"
         return "Panic:CheckOut:other"
@@ -306,7 +320,7 @@ def run_wc(ctx, prop, mc_cfgs, neg_cfgs, gen_cfgs, n_random, focus, script_len=1
             ctx.sample({"xp": r["xp"], "steps": [dict((a, b) for a, b in s.items() if a != "tree") for s in r["steps"]]}, 3)
             k += 1
     ctx.assumptions += [
-        "path universe {.gitignore, d, d/.gitignore, d/x, d/y, f}; 2 file contents, exec bit, 2 symlink targets, 7 ignore files "
+        "path universe {.gitignore, d, d/.gitignore, d/x, d/x/z, d/y, f} (any non-ignore path may also be an empty directory or a fifo); 2 file contents, exec bit, 2 symlink targets, 7 ignore files "
         "over single-component patterns, 3-term file conflicts; the projection functions of harness/jjconf/src/bin/wc/script.rs are correct",
         "conflict marker files on disk are decoded with jj's own parse_conflict (materialise/parse inverse is C05's subject)",
         "every jj action runs in a workspace reloaded from disk; user edits happen between jj commands, not during them",
